@@ -402,6 +402,13 @@ class Exec:
             k = _calls.resolve_method(real, '__getitem__') if real is not None else None
             if k is None: raise Unsupported(f'subscript of a {c.cls} object: no __getitem__ contract')
             return _calls.apply_contract(self, st, k, c, [i], {}, [], [], node or ast.Constant(value=None, lineno=0))
+        if isinstance(c, ZV) and c.kind == 'val' and isinstance(i, ZV) and i.kind == 'val' and not self.spec.heap_dicts:
+            # container and subscript are both universal values: a list/tuple indexed by an int, or a dict
+            outs = []
+            for s1, is_seq in self.fork(st, And(Val.is_T(c.z), is_int(i.z)), lab + '.seq'):
+                if is_seq: outs.extend(self.getitem(s1, c, ZV('int', intval(i.z)), node))
+                else: outs.extend(self.getitem(s1, PDict(self.as_dict(s1, c)), i, node))
+            return outs
         if isinstance(c, PDict) or (isinstance(c, ZV) and c.kind == 'val' and not self._is_int_index(i)):
             arr = self.as_dict(st, c)
             cell = arr[self.as_str(st, i)]
@@ -426,11 +433,11 @@ class Exec:
             outs = []
             for s2, side in self.fork(st, And(0 <= iz, iz < n), lab):
                 if side:
-                    item = arr[iz]
+                    item = asel(arr, iz)
                     outs.append((s2, ZV('ref', Val.ref(item), c.elem[4:]) if isinstance(c, PSeq) and c.elem.startswith('ref:') else ZV('val', item)))
                 else:
                     for s3, neg in self.fork(s2, And(-n <= iz, iz < 0), lab + 'neg'):
-                        outs.append((s3, ZV('val', arr[n + iz]) if neg else self.raise_(s3, 'IndexError')))
+                        outs.append((s3, ZV('val', asel(arr, n + iz)) if neg else self.raise_(s3, 'IndexError')))
             return outs
         raise Unsupported(f'subscript of {c!r}')
 
